@@ -288,6 +288,14 @@ impl Check for Crash {
                             drive(&mut j, &scope_name, text, flags, false, &re, &inputs, &["<$0>", "$1\\$"], usize::MAX);
                         }
                     }
+                    if !light {
+                        // the same text under the XSD dialect (what it accepts of it)
+                        let c = imp::compile(text, "", true);
+                        j.obs(&Case::new(&scope_name, text, "").xsd(true).api("compile"), &c, &[EK::Syntax, EK::InvalidFlags]);
+                        if let Out::Ok(re) = c {
+                            drive(&mut j, &scope_name, text, "", true, &re, &inputs, &["<$0>", "$1\\$"], usize::MAX);
+                        }
+                    }
                     j.out.sample(J::obj(vec![("pattern", J::s(text)), ("flags", J::s(format!("{:?}", FLAG_MENU_AST)))]));
                 });
             }
